@@ -6,7 +6,7 @@ Line protocol of the C15 driver.
 `c15 run <profile> <nregions> (<base> <hex>)* <op>*`
   one request = one lifetime of a freshly opened handle over a device whose memory map consists
   of the given regions.  ops (executed in order, the handle caches persist between them):
-    `e` enable_streaming, `d` disable_streaming, `p` StreamParams::from_control (+ maximum_payload_size)
+    `e` enable_streaming, `d` disable_streaming, `s` ControlHandle::sbrm, `p` StreamParams::from_control (+ maximum_payload_size)
   each optionally followed by `@<k>:<kind>:<applied>`: the k-th device access (0-based, counted
   within the op) is faulted; kind = `status` (GenCP error status) or a libusb error name.
   answer: `<op>=<result>[<access log>] ... img=<hex>|<hex>..` (final content of every region).
@@ -90,6 +90,10 @@ def runOps (p : Profile) : List Op → St → List String → List String × St
         (showR (fun _ => "ok") r, st', r.isPanic)
       else if op.kind == 'd' then
         let (r, st') := disableStreaming st
+        (showR (fun _ => "ok") r, st', r.isPanic)
+      else if op.kind == 's' then
+        -- the public `ControlHandle::sbrm()` (fills the SBRM cache only)
+        let (r, st') := getSbrm st
         (showR (fun _ => "ok") r, st', r.isPanic)
       else
         let (r, st') := fromControl st
